@@ -199,7 +199,6 @@ fn every_message_length(ctx: &Ctx, rep: &mut Report) {
         let lib = libs()[si];
         let p = lib.p();
         let sub = format!("every_message_length_{}", p.id);
-        let Ok((pk, sk)) = crate::engine::guarded(|| lib.keygen_from_seed(&[0x17; 32])) else { continue };
         run_sweep(
             rep,
             &sub,
@@ -212,6 +211,8 @@ fn every_message_length(ctx: &Ctx, rep: &mut Report) {
                 let mut rng = TestRng::replay(&[(len % 251) as u8; 32]);
                 st.eval();
                 st.nontrivial_enumerated += 1;
+                // (a key pair per case: key objects are not assumed to be shareable between threads)
+                let (pk, sk) = g("keygen_from_seed", || lib.keygen_from_seed(&[0x17; 32]))?;
                 let sig = match g_sign(&*sk, &mut rng, m, cx, mode) {
                     Ok(Ok(s)) => s,
                     Ok(Err(e)) => fail!(format!("sign:err:len_sweep:set{}", p.id), "set {} {}: signing a message of {len} bytes failed: {e}", p.id, mode.tag()),
